@@ -32,11 +32,13 @@ import (
 
 	xpv1 "github.com/crossplane/crossplane-runtime/apis/common/v1"
 	"github.com/crossplane/crossplane-runtime/pkg/event"
+	"github.com/crossplane/crossplane-runtime/pkg/feature"
 	"github.com/crossplane/crossplane-runtime/pkg/resource/unstructured/reference"
 
 	fnv1 "github.com/crossplane/crossplane/apis/apiextensions/fn/proto/v1"
 	v1 "github.com/crossplane/crossplane/apis/apiextensions/v1"
 	"github.com/crossplane/crossplane/internal/controller/apiextensions/claim"
+	"github.com/crossplane/crossplane/internal/features"
 	"github.com/crossplane/crossplane/verif/explore"
 	"github.com/crossplane/crossplane/verif/report"
 	"github.com/crossplane/crossplane/verif/simkube"
@@ -673,6 +675,15 @@ func pubPipelineBody(r *explore.Run, rep *report.R, sc string) {
 	}
 	produced := producedFromMask(mask)
 	w := newWorld(r, fi, asks, xrh.PipelineComposition("comp", "fn"), pipelineFn(produced, nil), false)
+	// With the external secret stores feature enabled the XRD reconciler
+	// wires another chain of publishers; an XR that publishes to a plain
+	// Secret must be treated the same.
+	ess := r.Bool("external-secret-stores-feature")
+	if ess {
+		flags := &feature.Flags{}
+		flags.Enable(features.EnableAlphaExternalSecretStores)
+		w.xrec = xrh.NewXRReconciler(w.xrd, xrh.XROptions{Cached: w.s.Client("xr"), Runner: pipelineFn(produced, nil), Recorder: recorder{&w.evs}, Features: flags})
+	}
 	seedPre(w.s, w.dest.Namespace, w.dest.Name, class, preDatas[pd], xrOwner, victimOwner)
 	r.Logf("produced=%s filter=%s asks=%d pre=%s predata=%s", fmtData(produced), w.fname, asks, preNames[class], fmtData(preDatas[pd]))
 
@@ -711,7 +722,7 @@ func pubPipelineBody(r *explore.Run, rep *report.R, sc string) {
 
 	nt := ""
 	if len(produced) > 0 && asks != 0 {
-		nt = report.Hash(sc, mask, fi, asks, class, pd)
+		nt = report.Hash(sc, mask, fi, asks, class, pd, ess)
 	}
 	rep.Eval(sc, report.Hash(obs.keys, obs.conflict), nt)
 	if rep.WantSample() && nt != "" && class != preAbsent && fi == 1 {
@@ -1151,6 +1162,36 @@ func claimBody(r *explore.Run, rep *report.R, sc string, masks []int, nFilters i
 		}
 	}
 	final := w.checkClaim(crec, p.claimAsks, "final")
+	// Intruders: other claims point their spec.resourceRef at this claim's XR
+	// and ask for a connection secret - a claim with another name, and a
+	// namesake of the bound claim in another namespace. Neither may obtain a
+	// copy of the XR's secret, nor change the XR.
+	xrBefore, srcSecret := whole(w.s.Peek(xrh.XRKey(xrName))), dataOf(w.s.Peek(w.dest))
+	for _, in := range []struct{ ns, name string }{{cmNS, "intruder"}, {"other", cmName}} {
+		ic := xrh.Claim(in.ns, in.name)
+		ic.SetUID(types.UID("intruder-" + in.ns + "-" + in.name))
+		ic.SetResourceReference(&reference.Composite{APIVersion: xrh.XRGVK.GroupVersion().String(), Kind: xrh.XRGVK.Kind, Name: xrName})
+		ic.SetWriteConnectionSecretToReference(&xpv1.LocalSecretReference{Name: "intruder-conn"})
+		w.s.Seed(ic)
+		inn := types.NamespacedName{Namespace: in.ns, Name: in.name}
+		for i := 0; i < 2; i++ {
+			xrh.Reconcile(crec, inn)
+		}
+		if got := dataOf(w.s.Peek(secKey(in.ns, "intruder-conn"))); len(got) > 0 {
+			for k, v := range got {
+				for _, sv := range srcSecret {
+					if v == sv {
+						r.Failf("claim-secret/copied-to-unbound-claim", "claim %s/%s, which XR %s is not bound to, obtained %s=%q from the XR's connection secret", in.ns, in.name, xrName, k, v)
+					}
+				}
+			}
+		}
+		if got := whole(w.s.Peek(xrh.XRKey(xrName))); got != xrBefore {
+			r.Failf("claim-secret/xr-changed-by-unbound-claim", "reconciling claim %s/%s, which XR %s is not bound to, changed the XR: %s -> %s", in.ns, in.name, xrName, xrBefore, got)
+		}
+		w.s.Remove(xrh.ClaimKey(in.ns, in.name))
+		w.s.Remove(secKey(in.ns, "intruder-conn"))
+	}
 	legit := map[simkube.ObjKey]bool{}
 	if p.src == srcStolen {
 		legit[secKey(sysNS, "xr1-conn")] = true
